@@ -3,10 +3,11 @@ Hardcode.repeat / repeatList / repeatLists call and every @lazy call, the inputs
 texts the real code hands to the function-content parser.
 
 Run with /venv/bin/python and PYTHONPATH=<repo>/src.
-stdin : JSON list of jobs {src, header?}
+stdin : JSON list of jobs {src, header?, envs?}  (compiled one after the other IN THIS PROCESS, in the given order)
 stdout: JSON list of {"ok": bool, "files"| "exc","jmc","msg", "records": [record]}
 record: {"kind": "repeat"|"list"|"lists"|"lazy", "body": str, "params": [..], "macros": [[k, v]..],
-         "start","stop","step" | "strings" | "lists" | "pos","kw",
+         "start","stop","step" | "strings" | "lists" | "pos","kw" (arguments of a lazy call as token lists:
+         ["str", content, is_backtick] | ["paren", cleaned text] | ["func", params, body] | ["other", text]),
          "texts": [texts handed to the parser, in order],
          "err": null | {"exc": class, "msg": str, "stage": "process"|"parse"}}
 """
@@ -123,6 +124,20 @@ def install():
     wrap_hardcode(EE.HardcodeRepeatList, "list")
     wrap_hardcode(EE.HardcodeRepeatLists, "lists")
 
+    from jmc.compile.utils import clean_up_paren_token
+    PARENS = (TokenType.PAREN_CURLY, TokenType.PAREN_ROUND, TokenType.PAREN_SQUARE)
+
+    def tok_rec(tok, tokenizer):
+        tt = tok.token_type
+        if tt == TokenType.STRING:
+            return ["str", tok.string, tok.quote == "`"]
+        if tt in PARENS:
+            return ["paren", clean_up_paren_token(tok, tokenizer)]
+        if tt == TokenType.FUNC:
+            head = getattr(tok, "_embeded_data", None)
+            return ["func", head.string if head is not None else "()", tok.string]
+        return ["other", tok.string]
+
     orig_hl = PreFunction.handle_lazy
 
     def handle_lazy(self, args, kwargs, error_token, hardcode_parse_calc):
@@ -130,14 +145,9 @@ def install():
         rec["_self"] = self
         try:
             rec["params"] = list(self.tokenizer.parse_param(self.params))
-            pos = []
-            for a in args:
-                toks = list(a)
-                if toks and toks[0].token_type == TokenType.FUNC:
-                    toks.insert(0, Token(toks[0].token_type, toks[0].line, toks[0].col, "()=>"))
-                pos.append(self.tokenizer.merge_tokens(toks, use_full_string=True).string if toks else None)
-            rec["pos"] = pos
-            rec["kw"] = [[k, self.tokenizer.merge_tokens(list(v), use_full_string=True).string] for k, v in kwargs.items()]
+            # the arguments as token lists: [kind, ...]; the text of a bracket token is clean_up_paren_token's (outside the model)
+            rec["pos"] = [[tok_rec(t, self.tokenizer) for t in a] for a in args]
+            rec["kw"] = [[k, [tok_rec(t, self.tokenizer) for t in v]] for k, v in kwargs.items()]
         except Exception as e:  # noqa
             rec["input_error"] = type(e).__name__
         return run_recorded(rec, lambda: orig_hl(self, args, kwargs, error_token, hardcode_parse_calc))
@@ -169,6 +179,8 @@ def run_job(job, JMCTestPack, jmc_excs):
         if job.get("header") is not None:
             p.set_header_file(job["header"])
         p.set_cert(CERT)
+        if job.get("envs") is not None:
+            p.set_envs(list(job["envs"]))
         built = p.build().built
         res = {"ok": True, "files": built}
     except _Timeout:
